@@ -258,6 +258,7 @@ Frame(m, a, si, sm, sc, t) ==
 \* threads, one level less when there are several threads
 Bonus == CASE fam = FamDetour -> 2
            [] fam = FamPermCtx /\ Cardinality(Threads) > 1 -> -1
+           [] fam = FamTimeit /\ MaxDepth > 3 -> 3 - MaxDepth      \* the status tree is history: depth 3 at most
            [] OTHER -> 0
 DepthOf(t) == IF t = Deep THEN MaxDepth + Bonus ELSE ShallowDepth
 
